@@ -29,7 +29,7 @@ try:
         rc, out = sh('cargo test --offline --no-fail-fast 2>&1 | grep -E "^test result|FAILED|error(\\[|:)"', cwd=wt, env=env)
         res['suite'] = out.strip().splitlines()
         res['suite_green'] = len([l for l in res['suite'] if l.startswith('test result: ok')]) >= 3 and not any('FAILED' in l or 'error' in l for l in res['suite'])
-    cenv = dict(os.environ, BP_REPO=wt)
+    cenv = dict(os.environ, BP_REPO=wt, BP_EVIDENCE_DIR=os.path.join(wt, 'evidence_scratch'))
     alarms = {}
     for f in sorted(glob.glob(os.path.join(HERE, 'rules', 'C[0-9][0-9].py'))):
         cid = os.path.basename(f)[:-3]
